@@ -25,7 +25,7 @@ The tie of layers 1-3 to the C code is the correspondence run of `tools/props/c0
 equal `viterbiArr` of the built network).
 -/
 namespace SSVerif
-open Viterbi Hmm FlatNet HistDom
+open Viterbi Hmm FlatNet HistDom Beam
 
 /-- **C02, core.** For every network `N`, every emission-score function `em` (frame → state → score) and
 every utterance length `T`: no alignment of the `T` frames scores higher than the DP value, and when the DP
@@ -69,6 +69,34 @@ theorem C02_pruned_le_optimum (N : Net) (K : Mask) (em : Nat → Nat → Int) (T
 theorem C02_unpruned_is_dp (N : Net) (em : Nat → Nat → Int) (T : Nat) :
     viterbiK N ⟨fun _ _ => true, fun _ => true, fun _ => true⟩ em T = viterbi N em T :=
   Viterbi.viterbiK_all N em T
+
+/-- **C02, the beam search is a masked DP.** `Beam.viterbiBeam` — the frame-synchronous DP with the tests of
+`fsg_search_hmm_prune_prop` / `pnode_trans` / `pnode_exit` / `null_prop` / `word_trans` (thresholds
+`bestscore + beam/pbeam/wbeam`, `>=` resp. `>` as in the code) applied to its own pruned vectors — is `viterbiK` with
+the mask `beamMask`, for **any** beams; so whatever it reports is the score of an alignment and at most the optimum. -/
+theorem C02_beam_search_is_masked_dp (B : BNet) (bm : Beams) (em : Nat → Nat → Int) (T : Nat) :
+    viterbiBeam B bm em T = viterbiK B.toNet (beamMask B bm em T) em T ∧
+    (∀ v, viterbiBeam B bm em T = some v → Alignment B.toNet em T v ∧ ole (some v) (viterbi B.toNet em T)) := by
+  refine ⟨Beam.viterbiBeam_eq_mask B bm em T, fun v hv => ?_⟩
+  rw [Beam.viterbiBeam_eq_mask] at hv
+  exact Viterbi.pruned_le_optimum B.toNet _ em T v hv
+
+/-- **C02, the no-pruning regime, proved.** `Beam.regime B bm n em T` is the executable condition the driver
+evaluates on the unpruned array DP: the net is well-formed, every initial entry passes the start tests, and in every
+frame every finite partial sum of every candidate (after leaving the HMM, after the null hop, after the entry
+penalty; in the last frame also the exits) is above `bestscore + (narrowest beam)`.  When it holds (and `T ≥ 1`) the
+beam tests remove nothing: the beam search, the masked DP and the array DP all equal the optimum `viterbi`. -/
+theorem C02_wide_beams_prune_nothing (B : BNet) (bm : Beams) (n : Nat) (em : Nat → Nat → Int) (T : Nat) (hT : 0 < T)
+    (hr : regime B bm n em T = true) :
+    viterbiK B.toNet (beamMask B bm em T) em T = viterbi B.toNet em T ∧
+    viterbiBeam B bm em T = viterbi B.toNet em T ∧
+    viterbiArr B.toNet n em T = viterbi B.toNet em T :=
+  Beam.beam_identity B bm n em T hT hr
+
+/-- the beam-annotated network `FlatNet.buildB` (edge components kept apart) is the network `FlatNet.buildFrom` -/
+theorem C02_buildB_toNet (M : Model) (tmat : Nat → List Nat) (insts : Array Inst) :
+    (buildB M tmat insts).toNet = (buildFrom M tmat insts).toNet :=
+  FlatNet.buildB_toNet M tmat insts
 
 /-- an explicit path accepted by `pathScore` (used to print the optimal alignment of a replay) is an
 alignment with exactly that score -/
@@ -168,7 +196,7 @@ theorem C02_hist_domination_exact (l : List Entry) (new : Entry) (hs : Sorted l)
     simp only [Option.getD_none]
     refine ⟨?_, hs, fun x hx => ⟨x, List.mem_cons_of_mem _ hx, rfl, rfl, fun r hr => hr⟩⟩
     intro r
-    unfold cand
+    unfold HistDom.cand
     split
     · rename_i hr
       exact (omax_absorb (spec r hr)).symm
@@ -193,6 +221,16 @@ example :
     let em : Nat → Nat → Int := fun t s => if s = 0 then -(t : Int) - 5 else -7 + 4 * (t : Int)
     viterbi N em 3 = some (-13) ∧
     viterbiK N ⟨fun t e => !(t == 0 && e == (0, 1, -2)), fun _ => true, fun _ => true⟩ em 3 = some (-16) := by decide
+
+def exBNet : BNet :=
+  { edges := [⟨0, 0, -1, none, none⟩, ⟨0, 1, -2, none, some (-3)⟩, ⟨1, 1, -1, none, none⟩],
+    init := [⟨0, 0, -4⟩], exits := [⟨1, -2, 0⟩], outs := [(0, -2), (1, -2)], hmm := fun s => s }
+
+/-- a two-HMM chain, 3 frames: beams of −1000 are in the regime, beams of −3 are not and lose the alignment -/
+example :
+    let em : Nat → Nat → Int := fun t s => -(t : Int) - 5 - 2 * (s : Int)
+    regime exBNet ⟨-1000, -1000, -1000⟩ 2 em 3 = true ∧ viterbiBeam exBNet ⟨-1000, -1000, -1000⟩ em 3 = some (-32) ∧
+    regime exBNet ⟨-3, -3, -3⟩ 2 em 3 = false ∧ viterbiBeam exBNet ⟨-3, -3, -3⟩ em 3 = none := by decide
 
 /-- one frame of an active HMM: state scores and exit score, real code values of the `G` matrix -/
 example :
